@@ -48,16 +48,6 @@ Proof.
   intros h h' n H E C. apply E. eapply same_struct_none; [apply same_struct_sym; eassumption|assumption].
 Qed.
 
-Lemma same_struct_hollow : forall h h' n, same_struct h h' -> hollow h n -> hollow h' n.
-Proof.
-  intros h h' n H Ho. induction Ho as [c E|c nd E K _ IH].
-  - apply Hollow_none. eapply same_struct_none; eassumption.
-  - pose proof (H c) as Hc. unfold same_node_structure in Hc. rewrite E in Hc.
-    destruct (lookup h' c) eqn:E'; [|contradiction]. destruct Hc as [Hk He].
-    eapply Hollow_lazy; [exact E'|congruence|].
-    intros m Hm. apply IH. unfold node_children in *. rewrite He. exact Hm.
-Qed.
-
 Lemma same_struct_depth : forall h h' d n, same_struct h h' -> depth_lt h d n -> depth_lt h' d n.
 Proof.
   intros h h' d. induction d; intros n H D; cbn in *; [assumption|].
@@ -98,11 +88,11 @@ Qed.
 
 Lemma grows_has_parent : forall h h' c p, grows h h' -> has_parent h c p -> has_parent h' c p.
 Proof.
-  intros h h' c p G HP. induction HP as [c nd p E K I|c nd m p E K I _ IH].
+  intros h h' c p G HP. induction HP as [c nd p E I|c nd m p E K I _ IH].
   - destruct G as [S N]. pose proof (S c) as Hs. unfold same_node_structure in Hs. rewrite E in Hs.
-    destruct (lookup h' c) as [y|] eqn:Hy; [|contradiction]. destruct Hs as [Hk He].
+    destruct (lookup h' c) as [y|] eqn:Hy; [|contradiction].
     destruct (N c nd y E Hy) as (_ & _ & A3 & _).
-    eapply HP_td; [exact Hy|congruence|apply A3; exact I].
+    eapply HP_own; [exact Hy|apply A3; exact I].
   - destruct G as [S N]. pose proof (S c) as Hs. unfold same_node_structure in Hs. rewrite E in Hs.
     destruct (lookup h' c) as [y|] eqn:Hy; [|contradiction]. destruct Hs as [Hk He].
     eapply HP_lazy; [exact Hy|congruence| |exact IH].
@@ -143,7 +133,8 @@ Proof.
   - eapply grows_trans.
     2:{ eapply (fold_opt_rel _ grows grows_refl grows_trans); [|exact H].
         intros x y z _ Hxy. eapply IH. exact Hxy. }
-    eapply upd_grows; [exact E| | | | | |]; cbn; auto. apply incl_refl.
+    eapply upd_grows; [exact E| | | | | |]; cbn; auto.
+    destruct ps; cbn; [apply incl_appl|]; apply incl_refl.
 Qed.
 
 Lemma plock_flag_self : forall f h n ps h' nd, plock (S f) h n ps = Some h' -> lookup h n = Some nd -> flag_true h' n = true.
@@ -170,56 +161,22 @@ Proof.
   intros x y z _ Hxy. eapply plock_grows. exact Hxy.
 Qed.
 
-Lemma all_or_exists : forall (P Q : nat -> Prop) l, (forall m, In m l -> P m \/ Q m) -> (exists m, In m l /\ P m) \/ (forall m, In m l -> Q m).
+Lemma plock_parents : forall fuel h c pass h' nd,
+  plock fuel h c (Some pass) = Some h' -> lookup h c = Some nd -> forall x, In x pass -> has_parent h' c x.
 Proof.
-  induction l as [|a l IH]; intros H.
-  - right. intros m [].
-  - destruct (H a (or_introl eq_refl)) as [Pa|Qa].
-    + left. exists a. split; [left; reflexivity|exact Pa].
-    + destruct IH as [[m [Hm Pm]]|Hall].
-      * intros m Hm. apply H. right. exact Hm.
-      * left. exists m. split; [right; exact Hm|exact Pm].
-      * right. intros m [->|Hm]; [exact Qa|apply Hall; exact Hm].
-Qed.
-
-Lemma plock_parents : forall fuel h c pass h',
-  plock fuel h c (Some pass) = Some h' -> forall x, In x pass -> has_parent h' c x \/ hollow h' c.
-Proof.
-  induction fuel as [|f IH]; intros h c pass h' H x Hx; [discriminate|].
-  cbn in H. destruct (lookup h c) as [nd|] eqn:E.
-  2:{ inversion H. subst. right. apply Hollow_none. exact E. }
+  intros fuel h c pass h' nd H E x Hx. destruct fuel as [|f]; [discriminate|].
+  cbn in H. rewrite E in H.
+  assert (Own : In x (pars nd ++ filter (fun r => negb (memb r (pars nd))) pass)).
+  { destruct (memb x (pars nd)) eqn:M.
+    - apply in_or_app. left. apply memb_In. exact M.
+    - apply in_or_app. right. apply filter_In. split; [exact Hx|]. rewrite M. reflexivity. }
   destruct (nk nd) eqn:K.
-  - (* TensorDict: x is stored (already present or appended) *)
-    left.
-    match type of H with fold_opt _ _ ?h1 = _ => set (h1' := h1) in * end.
-    assert (G : grows h1' h') by (eapply plock_fold_grows; exact H).
-    eapply grows_has_parent; [exact G|].
-    eapply HP_td; [unfold h1'; eapply lookup_upd_same; exact E|cbn; exact K|].
-    cbn. destruct (memb x (pars nd)) eqn:M.
-    + apply in_or_app. left. apply memb_In. exact M.
-    + apply in_or_app. right. apply filter_In. split; [exact Hx|]. rewrite M. reflexivity.
-  - (* lazy stack: inherited from the members *)
-    match type of H with fold_opt _ _ ?h1 = _ => set (h1' := h1) in * end.
-    assert (E1 : lookup h1' c = Some (set_flag nd FTrue)) by (unfold h1'; eapply lookup_upd_same; exact E).
-    assert (G : grows h1' h') by (eapply plock_fold_grows; exact H).
-    assert (Hc' : exists y, lookup h' c = Some y /\ nk y = KLazy /\ node_children y = node_children nd).
-    { destruct G as [S _]. pose proof (S c) as Hs. unfold same_node_structure in Hs. rewrite E1 in Hs.
-      destruct (lookup h' c) as [y|]; [|contradiction]. destruct Hs as [Hk He]. exists y. split; [reflexivity|].
-      cbn in Hk, He. split; [congruence|]. unfold node_children. rewrite <- He. reflexivity. }
-    destruct Hc' as (y & Ey & Ky & Cy).
-    assert (Each : forall m, In m (node_children nd) -> has_parent h' m x \/ hollow h' m).
-    { clear E1 Ey. revert H. generalize h1'. clear h1' G. generalize (node_children nd) as l.
-      induction l as [|a l IHl]; intros ha Hf m Hm; [destruct Hm|].
-      cbn in Hf. destruct (plock f ha a (Some (pass ++ [c]))) as [hm|] eqn:Pa; [|discriminate].
-      destruct Hm as [->|Hm].
-      - assert (G2 : grows hm h') by (eapply plock_fold_grows; exact Hf).
-        destruct (IH _ _ _ _ Pa x (in_or_app _ _ _ (or_introl Hx))) as [HP|Ho].
-        + left. eapply grows_has_parent; eassumption.
-        + right. eapply same_struct_hollow; [apply G2|exact Ho].
-      - eapply IHl; eassumption. }
-    destruct (all_or_exists _ _ _ Each) as [[m [Hm HP]]|Hall].
-    + left. eapply HP_lazy; [exact Ey|exact Ky|rewrite Cy; exact Hm|exact HP].
-    + right. eapply Hollow_lazy; [exact Ey|exact Ky|]. rewrite Cy. exact Hall.
+  - match type of H with fold_opt _ _ ?h1 = _ => set (h1' := h1) in * end.
+    eapply grows_has_parent; [eapply plock_fold_grows; exact H|].
+    eapply HP_own; [unfold h1'; eapply lookup_upd_same; exact E|exact Own].
+  - match type of H with fold_opt _ _ ?h1 = _ => set (h1' := h1) in * end.
+    eapply grows_has_parent; [eapply plock_fold_grows; exact H|].
+    eapply HP_own; [unfold h1'; eapply lookup_upd_same; exact E|exact Own].
 Qed.
 
 (* one unfolding of plock, uniform in the kind of node *)
@@ -234,7 +191,7 @@ Proof.
     + destruct ps; cbn; [apply incl_appl|]; apply incl_refl.
     + destruct ps; cbn; [apply in_or_app; right|]; left; reflexivity.
   - eexists. eexists. refine (conj _ (conj _ (conj _ (conj _ (conj _ (conj _ (conj _ H))))))); cbn; auto.
-    + apply incl_refl.
+    + destruct ps; cbn; [apply incl_appl|]; apply incl_refl.
     + destruct ps; cbn; [apply in_or_app; right|]; left; reflexivity.
 Qed.
 
@@ -246,10 +203,9 @@ Proof.
   eapply same_struct_child; [apply same_struct_sym; exact S|exact Hc].
 Qed.
 
-(* below x, every child is flagged and lists x (or is hollow) *)
+(* below x, every child is flagged and lists x *)
 Definition closedA (h : heap) (x : nat) : Prop :=
-  forall ndx c, lookup h x = Some ndx -> In c (node_children ndx) ->
-    flag_true h c = true /\ (has_parent h c x \/ hollow h c).
+  forall ndx c, lookup h x = Some ndx -> In c (node_children ndx) -> flag_true h c = true /\ has_parent h c x.
 
 Lemma closedA_grows : forall h h' x, grows h h' -> closedA h x -> closedA h' x.
 Proof.
@@ -258,27 +214,23 @@ Proof.
   destruct (lookup h x) as [a|] eqn:Ea; [|contradiction]. destruct Hs as [Hk He].
   destruct (C a c Ea) as [F P].
   { unfold node_children in *. rewrite He. exact Hc. }
-  split; [eapply grows_flag; eassumption|].
-  destruct P as [P|P]; [left; eapply grows_has_parent; eassumption|right; eapply same_struct_hollow; [apply G|exact P]].
+  split; [eapply grows_flag; eassumption|eapply grows_has_parent; eassumption].
 Qed.
 
 Lemma plock_fold_each : forall f pass l ha hb,
   fold_opt (fun h' c => plock f h' c (Some pass)) l ha = Some hb ->
   (forall c, In c l -> lookup ha c <> None) ->
-  forall c, In c l -> flag_true hb c = true /\ (forall x, In x pass -> has_parent hb c x \/ hollow hb c).
+  forall c, In c l -> flag_true hb c = true /\ (forall x, In x pass -> has_parent hb c x).
 Proof.
   intros f pass. induction l as [|a l IHl]; intros ha hb Hf Hex c Hc; [destruct Hc|].
   cbn in Hf. destruct (plock f ha a (Some pass)) as [hm|] eqn:Pa; [|discriminate].
   assert (G1 : grows ha hm) by (eapply plock_grows; exact Pa).
   assert (G2 : grows hm hb) by (eapply plock_fold_grows; exact Hf).
   destruct Hc as [->|Hc].
-  - split.
-    + eapply grows_flag; [exact G2|]. destruct f; [discriminate|].
-      destruct (lookup ha c) as [nd|] eqn:E; [|exfalso; eapply Hex; [left; reflexivity|exact E]].
-      eapply plock_flag_self; eassumption.
-    + intros x Hx. destruct (plock_parents _ _ _ _ _ Pa x Hx) as [P|P].
-      * left. eapply grows_has_parent; eassumption.
-      * right. eapply same_struct_hollow; [apply G2|exact P].
+  - destruct (lookup ha c) as [nd|] eqn:E; [|exfalso; eapply Hex; [left; reflexivity|exact E]].
+    split.
+    + eapply grows_flag; [exact G2|]. destruct f; [discriminate|]. eapply plock_flag_self; eassumption.
+    + intros x Hx. eapply grows_has_parent; [exact G2|]. eapply plock_parents; eassumption.
   - eapply IHl; [exact Hf| |exact Hc].
     intros c' Hc'. eapply same_struct_some; [apply G1|]. apply Hex. right. exact Hc'.
 Qed.
@@ -572,10 +524,10 @@ Qed.
 
 Lemma unl_has_parent : forall h h' c p, unl h h' -> has_parent h c p -> has_parent h' c p.
 Proof.
-  intros h h' c p [S N] HP. induction HP as [c nd p E K I|c nd m p E K I _ IH].
+  intros h h' c p [S N] HP. induction HP as [c nd p E I|c nd m p E K I _ IH].
   - pose proof (S c) as Hs. unfold same_node_structure in Hs. rewrite E in Hs.
-    destruct (lookup h' c) as [y|] eqn:Hy; [|contradiction]. destruct Hs as [Hk He].
-    destruct (N c nd y E Hy) as (P & _). eapply HP_td; [exact Hy|congruence|rewrite <- P; exact I].
+    destruct (lookup h' c) as [y|] eqn:Hy; [|contradiction].
+    destruct (N c nd y E Hy) as (P & _). eapply HP_own; [exact Hy|rewrite <- P; exact I].
   - pose proof (S c) as Hs. unfold same_node_structure in Hs. rewrite E in Hs.
     destruct (lookup h' c) as [y|] eqn:Hy; [|contradiction]. destruct Hs as [Hk He].
     eapply HP_lazy; [exact Hy|congruence| |exact IH]. unfold node_children in *. rewrite <- He. exact I.
@@ -601,10 +553,13 @@ Lemma parents_of_complete : forall fuel h n l p,
   parents_of fuel h n = Some l -> has_parent h n p -> ~ Reach h n p -> In p l.
 Proof.
   induction fuel as [|f IH]; intros h n l p H HP NR; [discriminate|].
-  cbn in H. inversion HP as [c nd q E K I|c nd m q E K I HPm]; subst; rewrite E in H; rewrite K in H.
-  - inversion H. subst. exact I.
-  - destruct (opt_concat (parents_of f h) (node_children nd)) as [r|] eqn:Ec; [|discriminate].
-    cbn in H. inversion H. subst l. apply filter_In. split.
+  cbn in H. inversion HP as [c nd q E I|c nd m q E K I HPm]; subst; rewrite E in H.
+  - destruct (nk nd).
+    + inversion H. subst. exact I.
+    + destruct (opt_concat (parents_of f h) (node_children nd)) as [r|]; [|discriminate].
+      cbn in H. inversion H. subst l. apply in_or_app. left. exact I.
+  - rewrite K in H. destruct (opt_concat (parents_of f h) (node_children nd)) as [r|] eqn:Ec; [|discriminate].
+    cbn in H. inversion H. subst l. apply in_or_app. right. apply filter_In. split.
     + destruct (opt_concat_some _ _ _ Ec) as [I1 _]. destruct (I1 m I) as [lm [Em Hi]]. apply Hi.
       eapply IH; [exact Em|exact HPm|]. intros R. apply NR. econstructor; [eapply child_intro; eassumption|exact R].
     + destruct (Nat.eqb_spec p n) as [->|Hne]; [exfalso; apply NR; constructor|reflexivity].
@@ -615,11 +570,20 @@ Proof.
   induction fuel as [|f IH]; intros h n l p H Hp; [discriminate|].
   cbn in H. destruct (lookup h n) as [nd|] eqn:E; [|inversion H; subst; destruct Hp].
   destruct (nk nd) eqn:K.
-  - inversion H. subst. eapply HP_td; eassumption.
+  - inversion H. subst. eapply HP_own; eassumption.
   - destruct (opt_concat (parents_of f h) (node_children nd)) as [r|] eqn:Ec; [|discriminate].
-    cbn in H. inversion H. subst l. apply filter_In in Hp. destruct Hp as [Hp _].
+    cbn in H. inversion H. subst l. apply in_app_or in Hp. destruct Hp as [Hp|Hp]; [eapply HP_own; eassumption|].
+    apply filter_In in Hp. destruct Hp as [Hp _].
     destruct (opt_concat_some _ _ _ Ec) as [_ I2]. destruct (I2 p Hp) as (m & lm & Hm & Em & Hx).
     eapply HP_lazy; [exact E|exact K|exact Hm|]. eapply IH; eassumption.
+Qed.
+
+(* the stored record of a node is part of what parents_of returns *)
+Lemma parents_of_own : forall fuel h n nd l p, parents_of fuel h n = Some l -> lookup h n = Some nd -> In p (pars nd) -> In p l.
+Proof.
+  intros fuel h n nd l p H E I. destruct fuel; [discriminate|]. cbn in H. rewrite E in H. destruct (nk nd).
+  - inversion H. subst. exact I.
+  - destruct (opt_concat (parents_of fuel h) (node_children nd)); [|discriminate]. cbn in H. inversion H. apply in_or_app. left. exact I.
 Qed.
 
 (* ---------------------------------------------------------------------------------------------- _check_unlock *)
@@ -673,11 +637,11 @@ Qed.
 Lemma chk_has_parent : forall s s' c p, chk s s' -> live s p = true -> flag_true (hp s) p = true ->
   has_parent (hp s) c p -> has_parent (hp s') c p.
 Proof.
-  intros s s' c p C L F HP. induction HP as [c nd p E K I|c nd m p E K I _ IH].
+  intros s s' c p C L F HP. induction HP as [c nd p E I|c nd m p E K I _ IH].
   - pose proof (c_struct _ _ C c) as Hs. unfold same_node_structure in Hs. rewrite E in Hs.
-    destruct (lookup (hp s') c) as [y|] eqn:Hy; [|contradiction]. destruct Hs as [Hk He].
+    destruct (lookup (hp s') c) as [y|] eqn:Hy; [|contradiction].
     destruct (c_node _ _ C c nd y E Hy) as (_ & _ & _ & [P|[P Q]]).
-    + eapply HP_td; [exact Hy|congruence|rewrite P; exact I].
+    + eapply HP_own; [exact Hy|rewrite P; exact I].
     + specialize (Q p I). rewrite L, F in Q. discriminate.
   - pose proof (c_struct _ _ C c) as Hs. unfold same_node_structure in Hs. rewrite E in Hs.
     destruct (lookup (hp s') c) as [y|] eqn:Hy; [|contradiction]. destruct Hs as [Hk He].
@@ -692,16 +656,15 @@ Proof.
   - split; [apply chk_refl|]. split; [reflexivity|reflexivity].
   - split; [|split; [reflexivity|discriminate]].
     unfold clear_parents. destruct (lookup (hp s) n) as [nd|] eqn:E; [|destruct s; apply chk_refl].
-    destruct (nk nd) eqn:K; [|destruct s; apply chk_refl].
     split; try reflexivity; cbn.
     + eapply upd_same_struct; [exact E|reflexivity|reflexivity].
     + intros m a b Ha Hb. rewrite lookup_upd in Hb. destruct (Nat.eqb_spec m n) as [->|Hne].
       * rewrite E in Hb. inversion Hb. subst b. rewrite E in Ha. inversion Ha. subst a. cbn.
         repeat split. right. split; [reflexivity|].
-        intros p Hp. unfold blocked in B. destruct fuel; [discriminate|]. cbn in B. rewrite E, K in B.
+        intros p Hp. unfold blocked in B. destruct (parents_of fuel (hp s) n) as [l|] eqn:Pl; [|discriminate].
         injection B as B'. destruct (live s p && flag_true (hp s) p) eqn:X; [|reflexivity].
-        exfalso. assert (existsb (fun p0 => live s p0 && flag_true (hp s) p0) (pars nd) = true).
-        { apply existsb_exists. exists p. split; assumption. }
+        exfalso. assert (existsb (fun p0 => live s p0 && flag_true (hp s) p0) l = true).
+        { apply existsb_exists. exists p. split; [eapply parents_of_own; eassumption|exact X]. }
         congruence.
       * rewrite Ha in Hb. inversion Hb. auto.
 Qed.
